@@ -70,7 +70,8 @@ def scenarios_for(prop, tier, rng):
     if prop in ("C15", "C17"):
         cases, r = tlc_cases("c15", 0, f"{prop}-gen"); gens.append(r)
         if not thorough:
-            rng.shuffle(cases); cases = cases[:60]
+            rng.shuffle(cases)
+            cases = [q for q in cases if "ok" not in q][:25] + [q for q in cases if "ok" in q][:60]
         sc = agentgen.c15_scenarios(cases, prop, rng)
         counts = {"c15_cases": len(cases)}
         if prop == "C17":
